@@ -9,6 +9,7 @@ reals), matched up to a permutation inside one equation's block.
 import sys
 import traceback
 
+from vk.paths import REPO
 from vk import families
 from vk.report import Collector, EncodingGap, Report, run_parallel, std_args
 from vk.smt import pipeline
@@ -76,7 +77,7 @@ def work_batch(item):
             col.sample({"model": cid, "text": text})
         elif kind == "repo":
             name, cls = payload
-            text = open(f"/repo/test/models/{name}.mo").read()
+            text = open(REPO + f"/test/models/{name}.mo").read()
             try:
                 pipeline.real_generate(text, cls)
             except Exception as e:
